@@ -229,16 +229,25 @@ namespace igris
 
         template <typename... Args> void emplace_back(Args &&... args)
         {
-            reserve(m_size + 1);
-            igris::constructor(m_data + m_size, std::forward<Args>(args)...);
+            if (m_size + 1 > m_capacity)
+            {
+                // the arguments may refer to an element of the buffer that is
+                // about to be replaced: build the new element first
+                T tmp(std::forward<Args>(args)...);
+                changeBuffer(m_size + 1);
+                igris::move_constructor(m_data + m_size, std::move(tmp));
+            }
+            else
+            {
+                igris::constructor(m_data + m_size,
+                                   std::forward<Args>(args)...);
+            }
             m_size++;
         }
 
         void push_back(const T &ref)
         {
-            reserve(m_size + 1);
-            igris::constructor(m_data + m_size, ref);
-            m_size++;
+            emplace_back(ref);
         }
 
         void pop_back()
